@@ -57,6 +57,11 @@ func (c *RowCollector) CollectResolvedRow(errChan chan<- error, origChan <-chan 
 		for m := range origChan {
 			if m.ColDiff != nil {
 				c.cd = m.ColDiff
+				// resolved rows come in the merged column layout, in which the
+				// primary key is hoisted to the start
+				if len(c.baseT.PK) > 0 {
+					c.resolvedRows.PK = c.cd.PKIndices()
+				}
 			} else if m.Resolved {
 				err := c.SaveResolvedRow(m.PK, m.ResolvedRow)
 				if err != nil {
@@ -85,6 +90,17 @@ func (c *RowCollector) Columns(removedCols map[int]struct{}) []string {
 
 func (c *RowCollector) PK() []string {
 	return c.cd.PK()
+}
+
+// baseRowInMergedOrder reorders the cells of a base row to follow the merged layout
+func (c *RowCollector) baseRowInMergedOrder(row []string) []string {
+	res := make([]string, 0, len(row))
+	for i := 0; i < c.cd.Len(); i++ {
+		if j, ok := c.cd.BaseIdx[uint32(i)]; ok {
+			res = append(res, row[j])
+		}
+	}
+	return res
 }
 
 func (c *RowCollector) collectRowsThatStayedTheSame() error {
@@ -116,7 +132,10 @@ func (c *RowCollector) collectRowsThatStayedTheSame() error {
 			if ok {
 				continue
 			}
-			err = c.resolvedRows.AddRow(row)
+			// rows that stayed the same are stored in the base column order:
+			// bring their cells into the merged column order (primary key
+			// first) like every resolved row
+			err = c.resolvedRows.AddRow(c.baseRowInMergedOrder(row))
 			if err != nil {
 				return err
 			}
